@@ -60,7 +60,7 @@ func main() {
 	}
 	r.Assume("logical time = sum of VerifAge shifts; real elapsed time of a scenario is < 1 s until every age-based threshold has been crossed (otherwise the scenario is discarded as inconclusive)",
 		"bounds are envelopes: retransmissions >= 5 min apart and overdue only after 5 min + 2 tick gaps; removal bounds 30 s / 5 min / 1 h + 2 ticks")
-	r.Finish("scenarios", "scripts", "entries of four kinds (observed-unsubmitted, observed with a stored quorum VAA, unknown digest, submitted) created at different logical times through the real handlers; tick scripts: regular 30 s ticks, irregular gaps 1 s..3 h, single stalls up to 1300 h, full request queue, one full 14400-retry run; distinct non-trivial = distinct (entry kinds, tick script) combinations", 50)
+	r.Finish("scenarios", "scripts", "entries of four kinds (observed-unsubmitted, observed with a stored quorum VAA, unknown digest with 1..3 of 4 signatures, submitted) created at different logical times through the real handlers; tick scripts: regular 30 s ticks, irregular gaps 1 s..3 h, single stalls up to 1300 h, full request queue, one full 14400-retry run; distinct non-trivial = distinct (entry kinds, tick script) combinations", 50)
 }
 
 func runScenario(rng *rand.Rand, store *db.Database, serial uint64, long bool, sIdx int) {
@@ -121,8 +121,14 @@ func runScenario(rng *rand.Rand, store *db.Database, serial uint64, long bool, s
 			rig.P.VerifHandleInbound(rig.Ctx, &gossipv1.SignedVAAWithQuorum{Vaa: proc.MkVAA(m.Body, g.Index, g, []int{0, 1, 2}, -1)})
 			deliverOwn()
 		case "unknown":
-			k := g.Pool[(pos+1)%4]
-			rig.P.VerifHandleObservation(rig.Ctx, proc.MkObs(m, m.Digest, k, "valid", rng, ethcommon.Address{}))
+			// one, two or all three other guardians have signed a digest the node has never observed (three is a
+			// quorum of the set of four: consensus without this node)
+			ns := 1 + rng.Intn(3)
+			for i := 1; i <= ns; i++ {
+				k := g.Pool[(pos+i)%4]
+				rig.P.VerifHandleObservation(rig.Ctx, proc.MkObs(m, m.Digest, k, "valid", rng, ethcommon.Address{}))
+			}
+			r.Count(fmt.Sprintf("entries_unknown_with_%d_signatures", ns), 1)
 		case "submitted":
 			deliverOwn()
 			for _, k := range g.Pool {
